@@ -167,8 +167,13 @@ class Scenario:
             return a, (msg, sig, claimed)
         if r < 0.76 - pm:
             # tampered: message changed after signing, or signature bytes flipped (still decodable)
-            how = rng.choice(["msg", "sig", "body"])
-            if how == "sig":
+            how = rng.choice(["msg", "sig", "body", "garbage", "nonobject", "notutf8"])
+            if how in ("garbage", "nonobject", "notutf8"):
+                # a forged item whose (unauthenticated) message is not even a JSON object: the signature does not
+                # verify, so nothing about the message may matter - least of all stop the batch
+                msg = {"garbage": b"\x00{{not json", "nonobject": b'["storage", 5]', "notutf8": b"\xff\xfe{}"}[how]
+                a["body"] = "x"
+            elif how == "sig":
                 raw = base32.a2b(sig[3:])
                 sig = b"v0-" + base32.b2a(flip(raw, rng.randrange(64), 1 << rng.randrange(8)))
             elif how == "msg":
